@@ -28,7 +28,7 @@ def case_iterate_local(log, order):
     rp = (MOD, "replay_iterate", {"order": order})
 
     def run():
-        jetmod.set_cap(7)
+        jetmod.set_cap(5)
         a0 = SR.var("a0")
         assume(a0, ">0")
         eps = Jet.lam()
